@@ -334,6 +334,11 @@ func (l *log) GetByTime(start time.Time) (message.Message, error) {
 
 		switch msg, err := rdr.GetByTime(ts, tctx); err {
 		case nil:
+			if i > 0 && msg.Offset == rdr.GetOffset() {
+				// matched the first message of this segment, the previous segment
+				// could end with messages of the same time, so look there first
+				continue
+			}
 			return msg, nil
 		case index.ErrTimeBeforeStart:
 			// not in this segment, try the rest
